@@ -50,7 +50,13 @@ pub enum Body {
     /// free XRD from the faucet into the actor's account
     Fund,
     NewFungible { divisibility: u8, track: bool, supply: String, recallable: bool, freezable: bool },
-    NewNonFungible { track: bool, initial: u8 },
+    NewNonFungible {
+        track: bool,
+        initial: u8,
+        /// engine-generated RUID ids instead of integer ids
+        #[serde(default)]
+        ruid: bool,
+    },
     MintF { res: u8, amount: String, to: u8 },
     MintNF { res: u8, count: u8, to: u8 },
     /// withdraw from the actor's account and burn (actor must be the owner of the resource)
@@ -145,6 +151,7 @@ pub struct NRes {
     pub owner: u8,
     pub next_id: u64,
     pub track: bool,
+    pub ruid: bool,
 }
 
 #[derive(Clone, Debug)]
@@ -290,7 +297,7 @@ pub fn build(step: &LStep, view: &View, node: &Node) -> Built {
             b.create_fungible_resource(OwnerRole::Fixed(r), *track, *divisibility, roles, metadata!(), Some(supply))
                 .try_deposit_entire_worktop_or_abort(acct, None)
         }
-        Body::NewNonFungible { track, initial } => {
+        Body::NewNonFungible { track, initial, ruid } => {
             let r = owner_rule(actor);
             let roles = NonFungibleResourceRoles {
                 mint_roles: mint_roles! { minter => r.clone(); minter_updater => rule!(deny_all); },
@@ -298,9 +305,15 @@ pub fn build(step: &LStep, view: &View, node: &Node) -> Built {
                 non_fungible_data_update_roles: non_fungible_data_update_roles! { non_fungible_data_updater => r.clone(); non_fungible_data_updater_updater => rule!(deny_all); },
                 ..Default::default()
             };
-            let entries: Vec<(NonFungibleLocalId, ())> = (0..*initial as u64).map(|i| (NonFungibleLocalId::integer(i + 1), ())).collect();
-            b.create_non_fungible_resource(OwnerRole::Fixed(r), NonFungibleIdType::Integer, *track, roles, metadata!(), Some(entries))
-                .try_deposit_entire_worktop_or_abort(acct, None)
+            if *ruid {
+                let entries: Vec<()> = (0..*initial).map(|_| ()).collect();
+                b.create_ruid_non_fungible_resource(OwnerRole::Fixed(r), *track, metadata!(), roles, Some(entries))
+                    .try_deposit_entire_worktop_or_abort(acct, None)
+            } else {
+                let entries: Vec<(NonFungibleLocalId, ())> = (0..*initial as u64).map(|i| (NonFungibleLocalId::integer(i + 1), ())).collect();
+                b.create_non_fungible_resource(OwnerRole::Fixed(r), NonFungibleIdType::Integer, *track, roles, metadata!(), Some(entries))
+                    .try_deposit_entire_worktop_or_abort(acct, None)
+            }
         }
         Body::MintF { res, amount, to } => {
             let (Some(r), Some(a), Some(to)) = (fres(res), dec(amount), party(to)) else { return Built::Skip };
@@ -311,8 +324,14 @@ pub fn build(step: &LStep, view: &View, node: &Node) -> Built {
         }
         Body::MintNF { res, count, to } => {
             let (Some(r), Some(to)) = (nres(res), party(to)) else { return Built::Skip };
-            let entries: Vec<(NonFungibleLocalId, ())> = (0..*count as u64).map(|i| (NonFungibleLocalId::integer(r.next_id + i), ())).collect();
-            b.mint_non_fungible(r.addr, entries).try_deposit_entire_worktop_or_abort(to.account, None)
+            if r.ruid {
+                // batch mint with engine-generated ids
+                let entries: Vec<()> = (0..*count).map(|_| ()).collect();
+                b.mint_ruid_non_fungible(r.addr, entries).try_deposit_entire_worktop_or_abort(to.account, None)
+            } else {
+                let entries: Vec<(NonFungibleLocalId, ())> = (0..*count as u64).map(|i| (NonFungibleLocalId::integer(r.next_id + i), ())).collect();
+                b.mint_non_fungible(r.addr, entries).try_deposit_entire_worktop_or_abort(to.account, None)
+            }
         }
         Body::BurnF { res, amount } => {
             let (Some(r), Some(a)) = (fres(res), dec(amount)) else { return Built::Skip };
@@ -542,13 +561,14 @@ pub fn absorb(step: &LStep, view: &mut View, receipt: &radix_engine::transaction
                 });
             }
         }
-        Body::NewNonFungible { track, initial } => {
+        Body::NewNonFungible { track, initial, ruid } => {
             if let Some(addr) = c.new_resource_addresses().first() {
                 view.nres.push(NRes {
                     addr: *addr,
                     owner: step.actor,
                     next_id: *initial as u64 + 1,
                     track: *track,
+                    ruid: *ruid,
                 });
             }
         }
@@ -743,7 +763,7 @@ pub fn gen_step(rng: &mut Rng, view: &View, node: &Node, w: &Weights, fault_perm
                     recallable: rng.chance(1, 2),
                     freezable: w.allow_freezable && rng.chance(1, 2),
                 },
-                2 => Body::NewNonFungible { track: rng.chance(2, 3), initial: rng.range(0, 4) as u8 },
+                2 => Body::NewNonFungible { track: rng.chance(2, 3), initial: rng.range(0, 4) as u8, ruid: rng.chance(1, 3) },
                 3..=4 => Body::MintF { res: r, amount: amount(rng, rdiv), to: other },
                 5 => {
                     let n = rng.below(nn) as u8;
